@@ -25,6 +25,7 @@ Apply(e) ==
   CASE e.op = "subject_to"        -> SubjectTo(e.arg)
     [] e.op = "clear_constraints" -> ClearConstraints
     [] e.op = "add_objective"     -> AddObjective
+    [] e.op = "add_state"         -> AddState
     [] e.op = "method"            -> Method(e.arg)
     [] e.op = "solver"            -> Solver(e.arg)
     [] e.op = "set_T"             -> SetT(e.arg)
@@ -39,12 +40,12 @@ Apply(e) ==
     [] e.op = "save"              -> Save
 
 (* what the NLP of abstract declaration d looks like through the recorder's projection *)
-Proj(d) == [k0 |-> Count(d.cons, "k0"), ka |-> Count(d.cons, "ka"), kb |-> Count(d.cons, "kb"),
+Proj(d) == [ext |-> d.ext, k0 |-> Count(d.cons, "k0"), ka |-> Count(d.cons, "ka"), kb |-> Count(d.cons, "kb"),
             nobj |-> d.nobj, T |-> d.T, t0 |-> d.t0, pval |-> d.pval, guess |-> d.guess, meth |-> d.meth]
 
 Failing(e, d2, live2, tflag2, out2) ==
   LET ref == IF tflag2 THEN live2 ELSE d2          \* an implementation may keep a cache that is still current
-      fields == {"k0", "ka", "kb", "nobj", "T", "t0", "pval", "guess", "meth"}
+      fields == {"ext", "k0", "ka", "kb", "nobj", "T", "t0", "pval", "guess", "meth"}
   IN (IF e.out # out2 THEN {<<"C13.d:outcome", l, e.op>>} ELSE {})
      \cup (IF e.out = "ok" /\ e.tflag
            THEN {<<"C13.a:" \o f, l, e.op>> : f \in {g \in fields : e.live[g] # Proj(ref)[g]}}
